@@ -63,6 +63,16 @@ func l3Unit(name string, params map[string]int, only string, what string) Unit {
 		Desc: l3Desc + " -- " + what, Bounds: l3Bounds, Quick: mergeParams(l3Base, params), Panic: "inconclusive", Only: only}
 }
 
+// collidingNamesUnit: definitions whose names normalise to one Go identifier (shared by C10,
+// which owns "each reference means its own definition", and C03, which owns the type facet).
+func collidingNamesUnit(only string) Unit {
+	return Unit{Name: "colliding-definition-names", Harness: "pkg/generator:HarnessC10Names", Layer: "L3", Only: only,
+		Desc:   "three (thorough: four) definitions whose names normalise to ONE Go identifier (line-ref, lineRef, line_ref, LineRef), each integer, string or boolean in every combination (equal schemas may share a declaration, different ones get suffixed names), one property per definition: the emitted root type accepts a symbolic document iff every member has the type of ITS definition",
+		Bounds: "3 names x 3 kinds (27 assignments) quick, 4 names (81) thorough; members absent/null/any JSON value",
+		Quick:  map[string]int{"GRID": 2, "GRIDMAG": 36, "NAMES": 3}, Thor: map[string]int{"GRID": 2, "GRIDMAG": 36, "NAMES": 4},
+		Panic:  "inconclusive"}
+}
+
 // l3UnitT: an L3 unit whose thorough tier uses other parameters than the quick tier.
 func l3UnitT(name string, quick, thor map[string]int, only string, what string) Unit {
 	u := l3Unit(name, quick, only, what)
@@ -177,7 +187,7 @@ func init() {
 			"number/integer properties with multipleOf (integral, fractional, larger than a narrow type) with and without --min-sized-ints: the emitted remainder test type-checks (math import, operand conversions, constant operands)")),
 		Assumptions: []string{"go/types with the real dependency packages decides type-correctness; gofmt stability is checked on the text with hole identifiers (holes never sit in aligned columns)"}})
 	reg(&Property{ID: "C02", Units: l3All("C02.")})
-	reg(&Property{ID: "C03", Units: l3All("C03.")})
+	reg(&Property{ID: "C03", Units: append(l3All("C03."), collidingNamesUnit("C03."))})
 	reg(&Property{ID: "C08", Units: []Unit{
 		l3Unit("enums", map[string]int{"KINDS": 4544, "DEPTH": 0, "ENUMTEXT": 1}, "C08.", "string/integer/mixed/string-or-null enums, typed and untyped, inline and via $ref, required and optional; string members are plain words or text with format verbs, quotes, backslashes and a newline"),
 		l3Unit("enums-in-arrays-and-objects", map[string]int{"KINDS": 48, "DEPTH": 1, "ITEMKINDS": 4288}, "C08.", "enums as array items and object members"),
@@ -200,6 +210,11 @@ func init() {
 			Desc:   "whole generator on properties with a default (string, number, integer, boolean, string enum, array of strings; nullable or not; required or not; with symbolic constraints that admit the default); emitted code on a symbolic document: absent or null member accepted and the decoded field equals the default, present value kept, default literal type-checks in its field",
 			Bounds: "one property; default values are concrete representatives (they travel through litter.Sdump), constraints symbolic (exact grid), document arrays <= N",
 			Quick:  map[string]int{"GRID": 2, "GRIDMAG": 36, "N": 2, "DEFAULTS": 1, "NUMSHAPES": 4, "STRSHAPES": 3, "ARRSHAPES": 3, "ITEMKINDS": 1, "MINSIZED": 1},
+			Panic:  "inconclusive"},
+		{Name: "defaults/same-named-sibling-types", Harness: "pkg/generator:HarnessC09Siblings", Layer: "L3",
+			Desc:   "two object schemas of one shape that want the same Go type name (definition names normalising to one identifier; equal titles under --struct-name-from-title) and differ only in their member's default (integer, string, boolean; also equal defaults): with the member absent or null at both positions, each decoded position holds its own default (the name de-duplication by schema equality must not merge them)",
+			Bounds: "two positions, one defaulted member each, concrete default pairs; members absent or null",
+			Quick:  map[string]int{"GRID": 2, "GRIDMAG": 36},
 			Panic:  "inconclusive"},
 	}})
 	reg(&Property{ID: "C17", Units: []Unit{
@@ -270,6 +285,7 @@ func init() {
 			Desc:   "one self-referencing definition (#/$defs/ and #/definitions/ spellings) used by two properties and an array: generation terminates, exactly one Go type is declared for it, documents nested three levels decode with their values",
 			Bounds: "one recursive definition, nesting depth 3",
 			Panic:  "inconclusive"},
+		collidingNamesUnit("C10."),
 		{Name: "refs-across-documents", Harness: "pkg/generator:HarnessC20", Layer: "L3", Only: "C10.",
 			Desc:   "two documents in one run, each with its own definition named Base behind the same reference string #/$defs/Base inside allOf: the emitted Money type enforces ITS document's Base (symbolic minLength, symbolic document)",
 			Bounds: "two files, three package layouts, both argument orders",
